@@ -23,6 +23,22 @@ type P struct {
 	Name string `json:"name"`
 	Req  bool   `json:"req"`
 	Type *T     `json:"type"`
+	Def  string `json:"def"` // declared default ("" = none; else the text of a string default)
+}
+
+// The Go struct layouts of struct-mapped objects (an object names its layout in the ns field).
+type sLeaf struct {
+	Mode string `json:"mode"`
+	Tag  string `json:"tag"`
+}
+type sMid struct {
+	Engine sLeaf  `json:"engine"`
+	Note   string `json:"note"`
+}
+type sRoot struct {
+	Cfg  sMid   `json:"cfg"`
+	Alt  sLeaf  `json:"alt"`
+	Name string `json:"name"`
 }
 
 const discField = "_t"
@@ -50,12 +66,12 @@ func mk(kind, id, ns, tag string, sub []*T, props []P) *T {
 	return &T{Kind: kind, ID: id, NS: ns, Tag: tag, Sub: sub, Props: props}
 }
 
-func leaf() *T                       { return mk("leaf", "", "", "", nil, nil) }
-func listOf(t *T) *T                 { return mk("list", "", "", "", []*T{t}, nil) }
-func mapOf(t *T) *T                  { return mk("map", "", "", "", []*T{t}, nil) }
-func oneOf(ms ...*T) *T              { return mk("oneof", "", "", "", ms, nil) }
-func refT(tag, ns, id string) *T     { return mk("ref", id, ns, tag, nil, nil) }
-func objT(id, tag string, p []P) *T  { return mk("obj", id, "", tag, nil, p) }
+func leaf() *T                           { return mk("leaf", "", "", "", nil, nil) }
+func listOf(t *T) *T                     { return mk("list", "", "", "", []*T{t}, nil) }
+func mapOf(t *T) *T                      { return mk("map", "", "", "", []*T{t}, nil) }
+func oneOf(ms ...*T) *T                  { return mk("oneof", "", "", "", ms, nil) }
+func refT(tag, ns, id string) *T         { return mk("ref", id, ns, tag, nil, nil) }
+func objT(id, tag string, p []P) *T      { return mk("obj", id, "", tag, nil, p) }
 func scopeT(tag, root string, o []*T) *T { return mk("scope", root, "", tag, o, nil) }
 
 func (t *T) objByID(id string) *T {
@@ -181,7 +197,7 @@ func inline(t *T, env *T, k int, x lex) *T {
 		c := *t
 		c.Props = make([]P, len(t.Props))
 		for i, p := range t.Props {
-			c.Props[i] = P{Name: p.Name, Req: p.Req, Type: inline(p.Type, env, k, x)}
+			c.Props[i] = P{Name: p.Name, Req: p.Req, Def: p.Def, Type: inline(p.Type, env, k, x)}
 		}
 		return &c
 	case "scope":
@@ -278,9 +294,27 @@ type harnessErr string
 func (w *world) buildObj(t *T) *schema.ObjectSchema {
 	props := map[string]*schema.PropertySchema{}
 	for _, p := range t.Props {
-		props[p.Name] = schema.NewPropertySchema(w.buildType(p.Type), nil, p.Req, nil, nil, nil, nil, nil)
+		var def *string
+		if p.Def != "" {
+			b, _ := json.Marshal(p.Def)
+			d := string(b)
+			def = &d
+		}
+		props[p.Name] = schema.NewPropertySchema(w.buildType(p.Type), nil, p.Req, nil, nil, nil, def, nil)
 	}
-	o := schema.NewObjectSchema(t.ID, props)
+	var o *schema.ObjectSchema
+	switch t.NS {
+	case "":
+		o = schema.NewObjectSchema(t.ID, props)
+	case "Leaf":
+		o = schema.NewStructMappedObjectSchema[sLeaf](t.ID, props)
+	case "Mid":
+		o = schema.NewStructMappedObjectSchema[sMid](t.ID, props)
+	case "Root":
+		o = schema.NewStructMappedObjectSchema[sRoot](t.ID, props)
+	default:
+		panic(harnessErr("HARNESS: unknown struct layout " + t.NS))
+	}
 	if w.memo {
 		w.objTag[o] = t.Tag
 	}
@@ -346,4 +380,82 @@ func sortedKeys[V any](m map[string]V) []string {
 	}
 	sort.Strings(out)
 	return out
+}
+
+func mapBased(t *T) bool {
+	var os []*T
+	objsIn(t, &os)
+	for _, o := range os {
+		if o.NS != "" {
+			return false
+		}
+	}
+	return true
+}
+
+// mapRebuilt walks a schema rebuilt from a description in parallel with the abstract tree it was
+// described from and records who is who (references and objects by tag). ok=false: the shapes differ.
+func (w *world) mapRebuilt(t *T, typ schema.Type) bool {
+	switch t.Kind {
+	case "leaf":
+		return typ.TypeID() == schema.TypeIDString
+	case "ref":
+		r, ok := typ.(*schema.RefSchema)
+		if !ok || r.ID() != t.ID || r.Namespace() != t.NS {
+			return false
+		}
+		w.refs[t.Tag] = r
+		return true
+	case "list":
+		l, ok := typ.(interface{ Items() schema.Type })
+		return ok && w.mapRebuilt(t.Sub[0], l.Items())
+	case "map":
+		m, ok := typ.(interface{ Values() schema.Type })
+		return ok && w.mapRebuilt(t.Sub[0], m.Values())
+	case "oneof":
+		o, ok := typ.(interface {
+			Types() map[string]schema.Object
+		})
+		if !ok || len(o.Types()) != len(t.Sub) {
+			return false
+		}
+		for i, m := range t.Sub {
+			mt, has := o.Types()[keys[i]]
+			if !has || !w.mapRebuilt(m, mt) {
+				return false
+			}
+		}
+		return true
+	case "obj":
+		o, ok := typ.(*schema.ObjectSchema)
+		return ok && w.mapRebuiltObj(t, o)
+	case "scope":
+		s, ok := typ.(*schema.ScopeSchema)
+		if !ok || s.Root() != t.ID || len(s.Objects()) != len(t.Sub) {
+			return false
+		}
+		w.scopes[t.Tag] = s
+		for _, o := range t.Sub {
+			ro, has := s.Objects()[o.ID]
+			if !has || !w.mapRebuiltObj(o, ro) {
+				return false
+			}
+		}
+		return true
+	}
+	return false
+}
+
+func (w *world) mapRebuiltObj(t *T, o *schema.ObjectSchema) bool {
+	if o == nil || o.ID() != t.ID || len(o.Properties()) != len(t.Props) {
+		return false
+	}
+	w.objTag[o] = t.Tag
+	for _, p := range t.Props {
+		rp, has := o.Properties()[p.Name]
+		if !has || !w.mapRebuilt(p.Type, rp.Type()) {
+			return false
+		}
+	}
+	return true
 }
